@@ -213,7 +213,7 @@ func runC09(cfg config) {
 		{"second", "USecond"}, {"seconds", "USecond"}, {"millisecond", "UMs"}, {"milliseconds", "UMs"},
 		{"mg", "UOther"}, {"d", "UOther"}, {"a", "UOther"}, {"mo", "UOther"}, {"wk", "UOther"}, {"h", "UOther"}, {"min", "UOther"}, {"s", "UOther"}, {"ms", "UOther"}, {"1", "UOther"},
 	}
-	amounts := []string{"0", "1", "11", "12", "13", "23", "24", "25", "59", "60", "61", "365", "366", "1000", "1.5", "0.5", "2.999", "-1", "-13", "-25", "-90", "-366", "-1.5"}
+	amounts := []string{"0", "1", "11", "12", "13", "23", "24", "25", "59", "60", "61", "365", "366", "1000", "360", "364", "52", "53", "729", "730", "8700", "8759", "8760", "29", "30", "31", "719", "1.5", "0.5", "2.999", "-1", "-13", "-25", "-90", "-366", "-1.5"}
 	nAmt := 3
 	if cfg.tier == "thorough" {
 		nAmt = len(amounts)
